@@ -1,5 +1,10 @@
 package main
 
+import (
+	"fmt"
+	"strings"
+)
+
 // C12 (reuse after Reset) and C14 (instance confinement): drivers over all
 // template configurations and peg.peg.go.
 
@@ -44,6 +49,27 @@ func checkC14(c *Check) {
 	forEachRuntime(c, func(a *aggregator, v *rtView) {
 		rtConfinement(a, v)
 	})
+	// R-fragments-closed: identifiers of the emitted rule functions
+	r := mustRepo(c)
+	if r == nil {
+		return
+	}
+	rs, probs := runSuite(r, tokenSuite(), []modelOpts{{Ast: true}, {Ast: false}, {Ast: true, Inline: true}, {Ast: false, Inline: true}})
+	for _, p := range probs {
+		c.Und("R-anchor", "tree.(*Tree).Compile/emission region", "", p)
+	}
+	if rs != nil {
+		reportSuite(c, "R-fragments-closed", rs, func(outcome) string { return "" }, "every identifier in the emitted rule functions resolves to a variable declared in Init, the receiver, a constant, a type, a builtin or a child stub — never to a package-level variable", func(sr *suiteResult) []string {
+			var out []string
+			for _, g := range uniq(sr.TV.Globals) {
+				if g != "rul3s" {
+					out = append(out, "emitted rule function refers to package-level variable "+g)
+				}
+			}
+			return out
+		})
+		c.Floor("R-fragments-closed", len(rs), 200)
+	}
 }
 
 func checkC06(c *Check) {
@@ -58,6 +84,27 @@ func checkC06(c *Check) {
 			rtResetComplete(a, v)
 		}
 	})
+	// wrapper half: lookup key, memoize placement and verdicts in the emitted rule functions
+	r := mustRepo(c)
+	if r == nil {
+		return
+	}
+	rs, probs := runSuite(r, coreSuite(), []modelOpts{{Ast: true}, {Ast: true, Inline: true}})
+	for _, p := range probs {
+		c.Und("R-anchor", "tree.(*Tree).Compile/emission region", "", p)
+	}
+	if rs != nil {
+		reportSuite(c, "R-memo-wrapper", rs, func(o outcome) string {
+			var ev []string
+			for _, e := range o.Hist {
+				if strings.HasPrefix(e, "memo") {
+					ev = append(ev, e)
+				}
+			}
+			return fmt.Sprintf("return %s with memo events [%s]", o.Kind, strings.Join(ev, " ; "))
+		}, "lookup with key (rule id, entry position) before anything else; a hit returns memoizedResult; memoize(id, entry position, entry tokenIndex, true) only on the success path after the rule's own token, memoize(…, false) only on the failure path", nil)
+		c.Floor("R-memo-wrapper", len(rs), 100)
+	}
 }
 
 func checkC11(c *Check) {
